@@ -296,6 +296,17 @@ Definition stop_retrying (s : st) : st :=
   | _, _, _ => s
   end.
 
+(* A clean restart of a server whose pipe was deleted. The registry a start reads (Service.Init -> persister.loadPipes) is
+   what the last Service.savePipes wrote; DeletePipe and Shutdown call it. saved = did that save write the list WITHOUT
+   the pipe? It does (true = the code) -- also when the list became EMPTY. saved = false is a savePipes that skips an
+   empty list: the file still names the deleted pipe, Init creates it again (its progress file is gone: no descriptor),
+   and it copies whatever is written from then on. For a live pipe this restart is LRestart / stop_retrying. *)
+Definition restart_after_delete (saved : bool) (s : st) : st :=
+  if alive s then s
+  else {| log := log s; cfrm := cfrm s; infl := infl s; queue := queue s;
+          desc := if saved then desc s else None; wrk := None; dst := dst s; alive := negb saved |}.
+Definition code_saves_empty_registry : bool := true.
+
 (* what the property asks the destination to hold for this source *)
 Definition expected (tags : list (bytes * bytes)) (base : nat) (l : list event) : list devent :=
   map (transform tags) (filter e_keep (skipn base l)).
